@@ -233,6 +233,17 @@ pub fn layouts(n: usize, thorough: bool) -> Vec<Layout> {
         blocks.extend((0..n - 1).map(|b| (b, Gap::FakeMagic, None)));
         v.push(Layout { files: vec![(3, None, blocks)], index_form: 1, junk_keys: true, foreign_entries: true, label: format!("offset={}", off) });
     }
+    // (e') file names of different digit widths in one directory (lexicographic order != numeric order)
+    for (k, set) in [vec![(2u64, "blk2.dat"), (10, "blk10.dat"), (100, "blk100.dat")], vec![(99_999, "blk99999.dat"), (100_000, "blk100000.dat"), (9, "blk00009.dat")], vec![(7, "blk7.dat"), (70, "blk00070.dat"), (700, "blk700.dat")]].into_iter().enumerate() {
+        for rot in 0..3usize {
+            let files = (0..3).map(|f| {
+                let (no, name) = set[(f + rot) % 3];
+                let blocks: Vec<(usize, Gap, Option<u64>)> = (0..n).filter(|b| b % 3 == f).map(|b| (b, Gap::None, None)).collect();
+                (no, Some(name.to_string()), blocks)
+            }).collect();
+            v.push(Layout { files, index_form: 0, junk_keys: false, foreign_entries: false, label: format!("mixedwidth={}/{}", k, rot) });
+        }
+    }
     // (e) file-name zero padding
     for (k, name) in ["blk0.dat", "blk00000.dat", "blk000000000.dat"].iter().enumerate() {
         let blocks: Vec<(usize, Gap, Option<u64>)> = (0..n).map(|b| (b, Gap::None, None)).collect();
@@ -250,7 +261,7 @@ pub fn run() -> Report {
     let n = if thorough { 5 } else { 4 };
     let btc = coin("bitcoin");
     let ls = layouts(n, thorough);
-    rep.rule = format!("all n!*C(n+2,2) ordered arrangements of n={} blocks into <=3 files x gap kind (none / zeros / garbage with fake magic / unindexed block) x index storage form (log, compacted table, table+log overwrite, reopen), per-block gap products, file-number / data-offset VarInt boundary sweeps (sparse >4GiB offsets), file-name padding, junk index keys, foreign directory entries; every layout of the same logical chain must give the model's csvdump output (hence identical across layouts); non-trivial = distinct layout", n);
+    rep.rule = format!("all n!*C(n+2,2) ordered arrangements of n={} blocks into <=3 files x gap kind (none / zeros / garbage with fake magic / unindexed block) x index storage form (log, compacted table, table+log overwrite, reopen), per-block gap products, file-number / data-offset VarInt boundary sweeps (sparse >4GiB offsets), file-name padding (also mixed digit widths in one directory), junk index keys, foreign directory entries; every layout of the same logical chain must give the model's csvdump output (hence identical across layouts); non-trivial = distinct layout", n);
     rep.bound = json!({"blocks": n, "layouts": ls.len(), "uniform_size_chain_layouts": arrangements(n + 1).len() * 2});
     rep.not_covered = vec!["two file names parsing to the same number (ambiguous)".into(), "symlinked blk files".into(), "hundreds of files (C17 covers 200/1200 files)".into()];
     let chain = dependent_chain(btc, 0, n);
